@@ -2,5 +2,6 @@ SPECIFICATION Spec
 CONSTANTS
   FSet = {7, 12}
   TSet = {3, 4}
+  Focus = "all"
   EmitOn = TRUE
 CHECK_DEADLOCK FALSE
